@@ -84,7 +84,10 @@ def join(it, a, k):
     t = parts[0].t
     for x in parts[1:]:
         t = _join2(t, x.t)
-    return VStr(z3.simplify(t) if all(vals.concrete_str(x) is not None for x in parts) else t)
+    out = VStr(z3.simplify(t) if all(vals.concrete_str(x) is not None for x in parts) else t)
+    if len(parts) == 2:
+        out.parts = (parts[0], parts[1])  # remembered for the file-system model
+    return out
 
 
 def split(it, a, k):
